@@ -226,7 +226,8 @@ def cost_case(mm, sem, form, text="", origin=""):
                      "store_throughput": R.yaml_rows_from_patterns(mm._data["store_throughput"], "src")}
     case["lk"] = observe(mm, sem, form)
     case["q"], case["rowobs"] = observe_q(mm, form, case["lk"])
-    case["exp"] = run_impl(sem, form)
+    import c08_tie                      # translator tie: form snapshot + get_instruction / get_reg_type answers
+    case["exp"], case["tie"] = c08_tie.record(mm, sem, form, lambda: run_impl(sem, form))
     return case
 
 
